@@ -313,8 +313,10 @@ def run(F, rep, tier, allfacts):
     rn, rf = F.find(r"^fuel_vm::interpreter::flow::RetCtx::<'_>::return_from_context$", ["fuel_vm"], one=True)
     rep.saw(rn)
     adds = [(i, args) for i, c, args, *_ in calls(rf) if callee_matches(c, r"::checked_add$")]
-    okadd = any("const:10" in describe(rf, a[0]) or "CGAS" in describe(rf, a[0]) or "index(" in describe(rf, a[0]) for _, a in adds) and \
-        any("context_gas" in describe(rf, a[1]) for _, a in adds)
+    def _is_cgas(d):
+        return "const:10" in d or "CGAS" in d or "index(" in d
+    # commutative: cgas.checked_add(frame.context_gas()) or frame.context_gas().checked_add(cgas)
+    okadd = any((_is_cgas(describe(rf, a[0])) and "context_gas" in describe(rf, a[1])) or (_is_cgas(describe(rf, a[1])) and "context_gas" in describe(rf, a[0])) for _, a in adds)
     rep.check(okadd, "CALL-gas", "return:cgas.checked_add(frame.context_gas())", "%s:%s" % (rf["file"], rf["line"]),
               "unspent callee gas must be credited: cgas.checked_add(frame.context_gas()); found %s" % [[describe(rf, x) for x in a] for _, a in adds])
     # run_program gas_used
